@@ -91,6 +91,11 @@ def gc_scenario(rng, n_objs, n_funcs, p_edge=0.25, n_sets=1, p_set_member=0.3, p
             "sets": sets, "n_objs": n_objs, "entry": "f0", "none_relocs": rng.random() < 0.5}
 
 
+def set_ref_mode(f, sname):
+    """Which boundary symbols of the set function f references (deterministic in the names)."""
+    return ("both", "start", "stop")[sum(map(ord, f + sname)) % 3]
+
+
 def gc_reach(scn):
     """Declarative closure: names of functions / data / set-member sections that must be kept."""
     keep = set()
@@ -142,8 +147,13 @@ def gc_emit_x86(scn, d):
             t.append(f"    lea {dn}(%rip), %rax")
         for sname, s in scn["sets"].items():
             if f in s["referenced_by"]:
-                t.append(f"    lea __start_{sname}(%rip), %rax")
-                t.append(f"    lea __stop_{sname}(%rip), %rcx")
+                # either boundary symbol alone keeps every section of that name (code that walks a set
+                # backwards from __stop_X, or only needs its start): a third of the references each
+                mode = set_ref_mode(f, sname)
+                if mode in ("both", "start"):
+                    t.append(f"    lea __start_{sname}(%rip), %rax")
+                if mode in ("both", "stop"):
+                    t.append(f"    lea __stop_{sname}(%rip), %rcx")
         if f == scn["entry"]:
             t.append(EXIT_X86)
         else:
